@@ -652,6 +652,16 @@ namespace photon
             standbyq.push_back(th);
         }
 
+        // The thread that this vCPU most recently switched away from. It is
+        // READY / SLEEPING (and unlocked) as soon as the run-queue lock is
+        // released, but its context is saved only afterwards, by the context
+        // switch itself. A stealer that resumed it in between would run it
+        // from its previous, stale context while this vCPU is still on its
+        // stack. Set under the run-queue lock by the switch, cleared (by the
+        // next run-queue operation of this vCPU, i.e. after the save) with
+        // release order; stealers skip the thread named here.
+        std::atomic<thread*> switching_out{nullptr};
+
         NullEventEngine _default_event_engine;
         bool is_master_event_engine_default() {
             return &_default_event_engine == master_event_engine;
@@ -702,6 +712,8 @@ namespace photon
         AtomicRunQ(const RunQ& runq = RunQ()) : RunQ(runq) {
             vcpu = current->get_vcpu();
             (plock = &vcpu->runq_lock) -> foreground_lock();
+            // the previous context switch of this vCPU is complete by now
+            vcpu->switching_out.store(nullptr, std::memory_order_release);
         }
         mutable bool update_current = false;
         void set_current(thread* th) const {
@@ -733,6 +745,7 @@ namespace photon
             prefetch_context(from, to);
             from->state = new_state;
             to->state = states::RUNNING;
+            vcpu->switching_out.store(from, std::memory_order_relaxed);
             return {from, to};
         }
         Switch _do_goto(thread* to) const {
@@ -741,6 +754,7 @@ namespace photon
             from->state = states::READY;
             to->state = states::RUNNING;
             set_current(to);
+            vcpu->switching_out.store(from, std::memory_order_relaxed);
             return {from, to};
         }
         Switch goto_next() const {
@@ -2155,6 +2169,7 @@ insert_list:
     thread* ws_scan_q(vcpu_t* v, thread* first, bool possibly_running) {
         // the first must be unstealable
         assert(!first->stealable());
+        auto u = (vcpu_t*)first->vcpu;
         thread_list stolen;
         uint64_t count = 0;
         auto th = first->next();
@@ -2171,7 +2186,9 @@ insert_list:
             }
             DEFER(lk->unlock());
             if ((possibly_running && th->state == states::RUNNING) ||
-                                    !th->stealable()) {
+                                    !th->stealable() ||
+                th == u->switching_out.load(std::memory_order_acquire)) {
+                // a thread being switched out may have not saved its context yet
                 // sleeping threads interrupted by another vCPU are inserted to
                 // standby q without poping from sleeping q, they can not be stolen.
                 th = th->next();
@@ -2209,6 +2226,8 @@ insert_list:
             if (lk->try_lock() < 0)
                 break;  // busy -- leave it for the next scan (see ws_scan_q)
             DEFER(lk->unlock());
+            if (th == u->switching_out.load(std::memory_order_acquire))
+                break;  // its context may have not been saved yet
             VERIF_COV(C_STEAL_STANDBYQ);
             q.pop_front();
             stolen.push_back(th);
